@@ -11,7 +11,8 @@ outcomes the implementation may show (`allowed`); `step` follows an observed out
   readline   `AsynConn.readline()`: a complete line from `_rxbuffer`/`recv`, `None` after `timeout` without data
              (also when the beginning of a line is waiting in `_rxbuffer`: it stays there, `allowed` does not look at `part`),
              `ConnectionClosed` when `recv` returns `b''` or raises `ConnectionResetError`
-             (`AsynTcp.recv`); after `disconnect()` `self.connection` is `None` → `AttributeError`
+             (`AsynTcp.recv`); after `disconnect()` `self.connection` is `None` → `AttributeError` (unless a complete
+             line is still buffered)
   send       `self.connection.sendall(data)`: `BrokenPipeError`/`ConnectionResetError` on a dead or locally
              shut-down socket; after `disconnect()` → `AttributeError`
   shutdown   `if self.connection: try: shutdown(SHUT_RDWR) except OSError: pass` — never raises
@@ -63,7 +64,9 @@ def ended (s : St) : Bool := s.shut || s.peer != .up
 
 def allowed (s : St) : Op → List Out
   | .readline =>
-    if s.gone then [.otherErr "AttributeError"]
+    if s.gone then
+      -- `self.connection` is `None`; a complete line that is still in `_rxbuffer` is handed out without touching it
+      (if s.read < s.sent && !s.eof then [.otherErr "AttributeError", .line s.read] else [.otherErr "AttributeError"])
     else if s.eof then [.closed]
     else if s.read < s.sent then
       (if s.peer = .rst then [.line s.read, .closed] else [.line s.read])
